@@ -4,3 +4,7 @@ pub mod basic {
     include!("gen/t_basic.rs");
 }
 pub use basic::t_basic::t_basic as tb;
+pub mod evolve_r {
+    include!("gen/t_evolve_r.rs");
+}
+pub use evolve_r::t_evolve_r::t_evolve_r as er;
